@@ -32,7 +32,7 @@ THEOREMS = ['C12_no_holes_unchanged', 'C12_hole_index_start_and_return', 'C12_ho
             'C12_region_newell_one_hole', 'C12_region_newell', 'C12_region_net_area', 'C12_region_closed_loops_have_signed_area',
             'C12_region_same_direction_decisive', 'C12_region_polygon_accounting', 'C12_region_closed_area_normal',
             'C12_region_merged_normal_planar', 'C12_region_closed_region', 'C12_region_every_vertex', 'C12_region_no_new_vertex',
-            'C12_region_no_holes', 'C12_region_scan_cases', 'C12_region_hits_wf', 'C12_region_hits_wf_any_instance',
+            'C12_region_no_holes', 'C12_region_scan_cases', 'C12_region_attach_same_vertex', 'C12_region_attach_index_spec', 'C12_region_attach_in_range', 'C12_region_in_cone_orient', 'C12_region_hits_wf', 'C12_region_hits_wf_any_instance',
             'C12_region_within_reach_wf', 'C12_region_bounded_coords_wf', 'C12_region_far_holes_pinned_refuted', 'C12_region_far_holes_now_merged']
 
 def streams(tier):
@@ -148,7 +148,11 @@ def edge_counter(v):
 
 def oracle(c, st):
     if is_ops(c): return None      # no property text speaks about these calls: model correspondence only
-    if c['mo'] == 99: return ('C12:panic', 'get_closed_loop panicked')
+    if c['mo'] == 99:
+        # get_closed_loop unwraps the push of every merged vertex: it panics when the nearest-vertex bridge is obstructed (the
+        # pushed edge crosses the outline).  The property quantifies over unobstructed bridges only ("checked by the oracle"):
+        # a panic is a violation exactly when the exact replay of the bridge choice finds every bridge unobstructed.
+        return ('C12:panic', 'get_closed_loop panicked although every nearest-vertex bridge is unobstructed') if quantifier(c, st)[0] == 'ok' else None
     outer = LoopJ(c['outer'], st); holes = [LoopJ(h, st) for h in c['holes']]
     merged = LoopJ(c['merged'], st)
     if not holes:
@@ -186,8 +190,12 @@ def oracle(c, st):
         a = float(dot(newell_x(l.v), P)) / (2 * lenP)
         if abs(a - net) > 1e-9 * max(abs(net), 1e-6): return ('C12:area', 'shoelace area of the %s outline is %r, outer - holes = %r' % (name, a, net))
     pa = fls([c['area']], st)[0]
-    if abs(closed.ap[0] - net) > 1e-9 * max(abs(net), 1e-6): return ('C12:area', 'the closed merged loop reports area %r, outer - holes = %r' % (closed.ap[0], net))
-    if abs(pa - net) > 1e-9 * max(abs(net), 1e-6): return ('C12:area', 'the polygon reports area %r, outer - holes = %r' % (pa, net))
+    # the areas the crate REPORTS are evaluated in floating point by the shoelace sum over the stored coordinates: allow for its
+    # rounding (a few ulps of sum |v_i| |v_i+1|, which dominates 1e-9 * area for a small outline at an offset of 1e3)
+    def mag(l): return sum(math.sqrt(float(len2(l.v[i]))) * math.sqrt(float(len2(l.v[(i + 1) % len(l.v)]))) for i in range(len(l.v)))
+    rnd = 16 * 2.0 ** -52 * (mag(closed) + mag(outer) + sum(mag(h) for h in holes))
+    if abs(closed.ap[0] - net) > 1e-9 * max(abs(net), 1e-6) + rnd: return ('C12:area', 'the closed merged loop reports area %r, outer - holes = %r' % (closed.ap[0], net))
+    if abs(pa - net) > 1e-9 * max(abs(net), 1e-6) + rnd: return ('C12:area', 'the polygon reports area %r, outer - holes = %r' % (pa, net))
     # normal
     pn = fls(c['n'], st)
     if max(abs(x - y) for x, y in zip(closed.n, pn)) > 1e-9: return ('C12:normal', 'normal of the closed merged loop %r differs from the polygon normal %r' % (closed.n, tuple(pn)))
